@@ -259,6 +259,172 @@ fn priority_union(rng: &mut rand::rngs::StdRng) -> (RawSchema, SV) {
 	(schema, v)
 }
 
+/// The union priority table, tied systematically: every ordered triple of branch kinds (23 kinds)
+/// against one representative presentation per lookup key. `n` cases are drawn from the 23³ × 14
+/// combinations; with `n` ≥ that number the enumeration is exhaustive.
+pub fn generate_prio(seed: u64, n: usize, emit: &mut dyn FnMut(String)) {
+	use rand::seq::SliceRandom;
+	let mut rng = rng_from(seed, "prio");
+	let kinds: Vec<(Reg, Option<Logical>)> = vec![
+		(Reg::Null, None),
+		(Reg::Boolean, None),
+		(Reg::Int, None),
+		(Reg::Long, None),
+		(Reg::Float, None),
+		(Reg::Double, None),
+		(Reg::Bytes, None),
+		(Reg::String, None),
+		(Reg::Array(usize::MAX), None),
+		(Reg::Map(usize::MAX), None),
+		(Reg::Record("R".into(), vec![]), None),
+		(Reg::Enum("E".into(), vec!["A".into(), "B".into()]), None),
+		(Reg::Fixed("F".into(), 4), None),
+		(Reg::Bytes, Some(Logical::Decimal(0, 20))),
+		(Reg::Fixed("DF".into(), 8), Some(Logical::Decimal(0, 20))),
+		(Reg::Bytes, Some(Logical::BigDecimal)),
+		(Reg::String, Some(Logical::Uuid)),
+		(Reg::Int, Some(Logical::Date)),
+		(Reg::Int, Some(Logical::TimeMillis)),
+		(Reg::Long, Some(Logical::TimeMicros)),
+		(Reg::Long, Some(Logical::TimestampMillis)),
+		(Reg::Long, Some(Logical::TimestampMicros)),
+		(Reg::Fixed("Du".into(), 12), Some(Logical::Duration)),
+	];
+	let values: Vec<SV> = vec![
+		SV::Bool(true),
+		SV::Int(IntTy::I8, crate::proto::BigI::Pos(1)),
+		SV::Int(IntTy::I32, crate::proto::BigI::Pos(1)),
+		SV::Int(IntTy::I64, crate::proto::BigI::Pos(1)),
+		SV::F32(0x3f80_0000),
+		SV::F64(0x3ff0_0000_0000_0000),
+		SV::Str("A".into()),
+		SV::Bytes(vec![0x41; 4]),
+		SV::Unit,
+		SV::UnitStruct("A".into()),
+		SV::UnitVariant("E".into(), 0, "A".into()),
+		SV::Struct("Other".into(), vec![]),
+		SV::Map(Some(0), vec![], true),
+		SV::Seq(Some(0), vec![]),
+	];
+	let k = kinds.len();
+	let total = k * k * k * values.len();
+	let picks: Vec<usize> = if n >= total {
+		(0..total).collect()
+	} else {
+		(0..n).map(|_| rng.gen_range(0..total)).collect()
+	};
+	for p in picks {
+		let (vi, rest) = (p % values.len(), p / values.len());
+		let (a, b, c) = (rest % k, (rest / k) % k, rest / (k * k));
+		let mut schema = vec![RawNode { reg: Reg::Union(vec![1, 2, 3]), logical: None }];
+		for (j, &ki) in [a, b, c].iter().enumerate() {
+			let (mut reg, lg) = kinds[ki].clone();
+			// distinct names for the named kinds, so that duplicates of a kind are still distinct types
+			match &mut reg {
+				Reg::Record(nm, _) | Reg::Enum(nm, _) | Reg::Fixed(nm, _) => *nm = format!("{nm}{j}"),
+				_ => {}
+			}
+			schema.push(RawNode { reg, logical: lg });
+		}
+		// children of arrays / maps: one shared int node
+		let int_idx = schema.len();
+		let mut need = false;
+		for node in schema.iter_mut() {
+			if let Reg::Array(x) | Reg::Map(x) = &mut node.reg {
+				*x = int_idx;
+				need = true;
+			}
+		}
+		if need {
+			schema.push(RawNode { reg: Reg::Int, logical: None });
+		}
+		let v = &values[vi];
+		let mut w = W::default();
+		w.t("rt").n(2).schema(&schema).sv(v);
+		ext_entries(&mut w, &schema, v);
+		emit(w.s);
+	}
+	let _ = &mut rng;
+	let _: Option<&usize> = [0usize].choose(&mut rng);
+}
+
+/// The (logical type, base type) table of `freeze`, exhaustively: every logical type on every base
+/// type as a one-node schema (plus what named/container bases need), against one representative
+/// presentation per serializer entry point. What a node freezes to decides which presentations it
+/// accepts and what it writes.
+pub fn generate_freeze_table(emit: &mut dyn FnMut(String)) {
+	let logicals: Vec<Option<Logical>> = vec![
+		None,
+		Some(Logical::Decimal(1, 10)),
+		Some(Logical::Uuid),
+		Some(Logical::Date),
+		Some(Logical::TimeMillis),
+		Some(Logical::TimeMicros),
+		Some(Logical::TimestampMillis),
+		Some(Logical::TimestampMicros),
+		Some(Logical::Duration),
+		Some(Logical::BigDecimal),
+		Some(Logical::Unknown("custom".into())),
+	];
+	let bases: Vec<Reg> = vec![
+		Reg::Null,
+		Reg::Boolean,
+		Reg::Int,
+		Reg::Long,
+		Reg::Float,
+		Reg::Double,
+		Reg::Bytes,
+		Reg::String,
+		Reg::Array(1),
+		Reg::Map(1),
+		Reg::Record("R".into(), vec![("a".into(), 1)]),
+		Reg::Enum("E".into(), vec!["A".into(), "B".into()]),
+		Reg::Fixed("F12".into(), 12),
+		Reg::Fixed("F4".into(), 4),
+	];
+	let values: Vec<SV> = vec![
+		SV::Bool(true),
+		SV::Int(IntTy::I32, crate::proto::BigI::Pos(1)),
+		SV::Int(IntTy::I64, crate::proto::BigI::Neg(-129)),
+		SV::Int(IntTy::U64, crate::proto::BigI::Pos(u64::MAX as u128)),
+		SV::F32(0x3f80_0000),
+		SV::F64(0x3ff8_0000_0000_0000),
+		SV::Str("A".into()),
+		SV::Str("1.5".into()),
+		SV::Bytes(vec![1, 2, 3, 4]),
+		SV::Bytes(vec![7; 12]),
+		SV::Unit,
+		SV::None,
+		SV::UnitVariant("E".into(), 1, "B".into()),
+		SV::Struct("R".into(), vec![("a".into(), SV::Int(IntTy::I32, crate::proto::BigI::Pos(2)))]),
+		SV::Struct("D".into(), vec![
+			("months".into(), SV::Int(IntTy::U32, crate::proto::BigI::Pos(1))),
+			("days".into(), SV::Int(IntTy::U32, crate::proto::BigI::Pos(2))),
+			("milliseconds".into(), SV::Int(IntTy::U32, crate::proto::BigI::Pos(3))),
+		]),
+		SV::Seq(Some(1), vec![SV::Int(IntTy::I32, crate::proto::BigI::Pos(3))]),
+		SV::Tuple(vec![
+			SV::Int(IntTy::U32, crate::proto::BigI::Pos(1)),
+			SV::Int(IntTy::U32, crate::proto::BigI::Pos(2)),
+			SV::Int(IntTy::U32, crate::proto::BigI::Pos(3)),
+		]),
+		SV::Map(Some(1), vec![(SV::Str("a".into()), SV::Int(IntTy::I32, crate::proto::BigI::Pos(4)))], true),
+	];
+	for l in &logicals {
+		for b in &bases {
+			let schema = vec![RawNode { reg: b.clone(), logical: l.clone() }, RawNode { reg: Reg::Int, logical: None }];
+			for v in &values {
+				for allow_slow in [false, true] {
+					let mut w = W::default();
+					w.t("ser").n(allow_slow as usize).optn(None).schema(&schema).sv(v);
+					ext_entries(&mut w, &schema, v);
+					emit(w.s);
+				}
+			}
+		}
+	}
+}
+
 pub fn generate_rt_td(seed: u64, n: usize, emit: &mut dyn FnMut(String)) {
 	let mut rng = rng_from(seed, "rt-td");
 	for i in 0..n {
